@@ -4,6 +4,7 @@ import (
 	"fmt"
 	"go/token"
 	"go/types"
+	"os"
 	"strings"
 
 	"golang.org/x/tools/go/ssa"
@@ -294,59 +295,93 @@ func propC17(c *Ctx) {
 			okErr = true
 		}
 	}
-	c.Check("R17.3", "decode/non-hex-is-error", dec.Pos(), okErr, "a byte outside the three ranges returns a non-nil error")
-
-	// ---- R17.4 -----------------------------------------------------------
-	c.Rule("R17.4", "a quantity folds in up to 16 hex digits (64 bits), no fewer", 1)
+	// every value folded into the result is the nibble of one of the three in-range arms
 	{
-		digits := int64(-1)
+		var inRange []Edge
 		allInstrs(dec, func(in ssa.Instruction) {
 			b, ok := in.(*ssa.BinOp)
+			if !ok || b.Op != token.LEQ {
+				return
+			}
+			if _, ok := los[b.Block()]; ok {
+				t, _ := boolEdges(b)
+				inRange = append(inRange, t...)
+				if os.Getenv("SHOVELCHECK_VERBOSE") != "" {
+					fmt.Println("  debug: LEQ block", b.Block().Index, "true edges", len(t), "inRange", len(inRange), b.String(), len(*b.Referrers()))
+					for _, r := range *b.Referrers() {
+						fmt.Printf("     ref %T %v\n", r, r)
+					}
+				}
+			} else if os.Getenv("SHOVELCHECK_VERBOSE") != "" {
+				fmt.Println("  debug: LEQ in block", b.Block().Index, "has no lower bound; los:", len(los))
+			}
+		})
+		allInstrs(dec, func(in ssa.Instruction) {
+			or, ok := in.(*ssa.BinOp)
+			if !ok || or.Op != token.OR {
+				return
+			}
+			ph, ok := or.Y.(*ssa.Phi)
+			if !ok {
+				ph, ok = or.X.(*ssa.Phi)
+			}
+			if !ok {
+				okErr = false // the folded nibble does not come from the range arms
+				return
+			}
+			for i := range ph.Edges {
+				if !edgeGuarded(dec, ph.Block().Preds[i], ph.Block(), inRange) {
+					okErr = false
+					if os.Getenv("SHOVELCHECK_VERBOSE") != "" {
+						fmt.Println("  debug R17.3: nibble edge from block", ph.Block().Preds[i].Index, "not guarded; inRange edges:", len(inRange))
+					}
+				}
+			}
+		})
+	}
+	c.Check("R17.3", "decode/non-hex-is-error", dec.Pos(), okErr, "a byte outside the three ranges returns a non-nil error and contributes no digit")
+
+	// ---- R17.4 -----------------------------------------------------------
+	c.Rule("R17.4", "every digit of a quantity is examined and a quantity that does not fit 64 bits is an error", 2)
+	{
+		// (a) the digit loop ranges over the whole string: its only exits are the end of the range and error returns
+		whole := false
+		var doneEdges []Edge
+		allInstrs(dec, func(in ssa.Instruction) {
+			ex, ok := in.(*ssa.Extract)
+			if !ok || ex.Index != 0 {
+				return
+			}
+			nx, ok := ex.Tuple.(*ssa.Next)
 			if !ok {
 				return
 			}
-			k, okc := constInt(b.Y)
-			if !okc || k < 8 || k > 32 {
-				return
-			}
-			idxLike := false
-			if ex, ok := b.X.(*ssa.Extract); ok && ex.Index == 1 {
-				if _, ok := ex.Tuple.(*ssa.Next); ok {
-					idxLike = true
-				}
-			}
-			if isInduction(b.X) {
-				idxLike = true
-			}
-			if !idxLike {
-				return
-			}
-			// is the test evaluated after the fold (res = res<<4 | nibble) of this iteration?
-			afterFold := false
-			for _, x := range b.Block().Instrs {
-				if bo, ok := x.(*ssa.BinOp); ok && bo.Op == token.OR {
-					afterFold = true
-				}
-				if x == ssa.Instruction(b) {
-					break
-				}
-			}
-			switch {
-			case b.Op == token.EQL && afterFold:
-				digits = k + 1
-			case b.Op == token.EQL && !afterFold:
-				digits = k
-			case b.Op == token.LSS:
-				digits = k
-			case b.Op == token.LEQ:
-				digits = k + 1
-			case b.Op == token.GEQ:
-				digits = k
-			case b.Op == token.GTR:
-				digits = k + 1
+			if rg, ok := nx.Iter.(*ssa.Range); ok && rg.X == ssa.Value(dec.Params[0]) {
+				whole = true
+				_, f := boolEdges(ex)
+				doneEdges = append(doneEdges, f...)
 			}
 		})
-		c.Check("R17.4", "decode/sixteen-digits", dec.Pos(), digits == 16, fmt.Sprintf("the digit loop stops after %d digits (a 64-bit quantity has up to 16)", digits))
+		okExit := whole
+		for _, r := range returnsOf(dec) {
+			vals := returnValues(r)
+			if isNilConst(vals[1]) && !guardedByEdges(dec, r, doneEdges) {
+				okExit = false // a success return that does not wait for the last digit
+			}
+		}
+		c.Check("R17.4", "decode/every-digit-examined", dec.Pos(), okExit, "the success return is reached only when the range over the whole token is exhausted (no early exit after N digits)")
+		// (b) more than 16 digits is an error before any folding
+		long, _ := cmpEdges(dec, func(b *ssa.BinOp) bool {
+			k, ok := constInt(b.Y)
+			return b.Op == token.GTR && ok && k == 16 && isLenOf(b.X, dec.Params[0])
+		})
+		okLong := len(long) > 0
+		for _, e := range long {
+			if g, _ := errorArmLeaves(dec, e, nil, nil); !g {
+				okLong = false
+			}
+		}
+		c.Check("R17.4", "decode/more-than-16-digits-is-error", dec.Pos(), okLong, "len(token) > 16 returns an error (otherwise the shift silently drops the leading digits)")
 	}
 
 	// ---- R17.5 -----------------------------------------------------------
